@@ -8,24 +8,48 @@ property statement:
               X has the requested dtype and shape (len(alphabet), len(s)),
               characters(X, allow_N=True) == s with every ignored character replaced by 'N',
               characters(X) == s when s has no ignored character,
+              (flag 'variants') the same two decodings with force=True and from a contiguous copy of X,
               one_hot_encode(characters(X, allow_N=True), ignore=['N']) == X   (other direction;
               only asserted when 'N' is not itself a letter of the alphabet).
- reject     a string with one character outside alphabet and ignore (ASCII, lower-case twin of a
-            letter, non-ASCII) at any position must raise.
+            The DNA configuration is also called with alphabet / ignore / dtype left to their defaults
+            (flag 'omit'; the dtype of the result is then not asserted).
+ reject     a string with one character outside alphabet and ignore (ASCII, other-case twin of a
+            letter or of an ignored character, non-ASCII) at any position - of a short string, or
+            first / last / middle / random in a string of 65 .. 100000 characters - must raise.
  revcomp    involutive complement maps (pairs + fixed points) in alphabet order:
               string form: rc(s)[p] == map[s[L-1-p]] ('N' -> 'N'), rc(rc(s)) == s,
-              tensor form: rc(X)[c, p] == X[index(map[alphabet[c]]), L-1-p], rc(rc(X)) == X,
-              agreement: one_hot_encode(rc(s)) == rc(one_hot_encode(s)).
+              tensor form: rc(X)[c, p] == X[index(map[alphabet[c]]), L-1-p], rc(rc(X)) == X (values and dtype),
+              agreement: one_hot_encode(rc(s)) == rc(one_hot_encode(s)),
+              (flag 'coded') the tensor form on a tensor with pairwise distinct entries (not one-hot):
+              rc(rc(Y)) == Y and the same formula,
+              (allow_N=False) the same on strings in which no N has to pass through.
  chunk      chunk k of sequence i is X_i[:, k*(size-overlap) : k*(size-overlap)+size], rows of
             sequence i follow those of sequence i-1 (integer position-coded tensors, so no two
             entries are equal);  unchunk(chunk(X), lengths, overlap)[i][..., p] == X_i[..., p] for
             every p below size + (K_i-1)*(size-overlap) (= every position covered by a complete
-            chunk).  The length of the unchunked tensor beyond that is not asserted.
+            chunk).  The length of the unchunked tensor beyond that is not asserted.  The input
+            sequences come contiguous, as transposed views (what one_hot_encode returns), as windows
+            of a larger tensor and as strided views; the chunk tensor goes to unchunk as returned,
+            as numpy array and as contiguous copy; keyword and positional calls.
+ history    many calls in ONE process (the statement quantifies over single calls, so no result may
+            depend on earlier calls): the steps are ordinary ohe / reject / revcomp / chunk cases
+            evaluated in order -
+              one alphabet with an ignore set that changes from call to call (a character ignored
+              earlier and not ignored now must be rejected), also through the default arguments,
+              re-partitions of a 3-5 character universe into letters (any order) / ignored / outside,
+              one key set with changing complement maps and key orders, default map in between,
+              the same list / dict OBJECT rewritten by the caller between the calls ('shared'),
+              returned tensors overwritten in place by the caller and the identical call repeated
+              ('scribble'), every other returned tensor compared with a private copy after each step.
+            A failing history is stored cut after its first failing step once that cut fails in a
+            FRESH interpreter (tried at most twice per run), otherwise together with every step
+            executed before it in the run; replay(case) re-runs the steps in order.
 
 Not asserted (the statement does not demand it): alphabets given as tuple / str (a tuple raises
 TypeError in one_hot_encode on the pinned tree), unchunk(lengths=None) (raises on the pinned
 tree although documented), sequences shorter than one chunk, complement maps that are not
-involutions, complex dtypes, characters(allow_N=False) on all-zero columns.
+involutions, complex dtypes, characters(allow_N=False) on all-zero columns, the dtype returned
+by one_hot_encode when none is requested, reverse_complement(allow_N=False) on a string with N.
 
 Sections marked LITERAL are inside the literal quantifier text ("every string", "all dtypes",
 "all ASCII alphabets") but are corner inputs; they have their own finding keys and can be
@@ -42,19 +66,32 @@ from tangermeme.utils import one_hot_encode, characters, reverse_complement, chu
 LITERAL_EDGES = True
 
 SCOPE = {
-    'quick': 'one_hot_encode/characters: random ASCII(1..127) alphabets of every size 1-8 x ignore sets of size 0-2, '
+    'quick': 'call histories in one process (first): 11 ignore-set histories (DNA with defaults / explicit / shared list objects + one '
+             'alphabet of each size 1-8; 9 ignore sets drawn from a pool of 4 characters each followed by a rejection of every pool '
+             'character not currently ignored), 12 re-partition histories of a 3-5 character universe (12 calls each, letters in any '
+             'order, 0-2 ignored, rest rejected), 8 complement-map histories (same keys, changing maps / key order, default map in '
+             'between), 2 mixed histories incl. chunk/unchunk; returned tensors overwritten or checked unchanged after every step; '
+             'one_hot_encode/characters: random ASCII(1..127) alphabets of every size 1-8 x ignore sets of size 0-2, '
              'every string of length 1-6 over alphabet+ignore when that has <= 4 symbols, length 1-3 otherwise, 9 dtypes '
              '(int8/uint8/int16/int32/int64/float16/float32/float64/bool) cycled over the strings and all 9 on every string of '
-             'length <= 2, 150 random strings of length 7-3000; rejection: every position of 3 base strings per alphabet x 6 '
-             'outside characters; LITERAL: the empty string, dtype bfloat16, an alphabet containing NUL; reverse_complement: '
-             'default DNA map + random involutive maps on alphabets of size 1-8, every string of length 0-5 (<= 4 symbols incl. N) '
-             'or 0-3, 100 random long strings; chunk/unchunk: every size 1-40 x every overlap 0..size-1 x one sequence with '
-             '1, 2, 3, 4-9 chunks (random incomplete tail) + one case of 2-4 sequences with chunk counts drawn from {1,2,3,many}, '
-             '1-3 rows, lengths given as list/numpy/tensor',
-    'thorough': 'as quick with: every string of length 1-6 when alphabet+ignore has <= 6 symbols, length 1-4 otherwise, two '
-                'alphabets per size, 1500 random long strings; reverse_complement every string of length 0-6 (<= 5 symbols) or 0-4, '
-                '1000 random long strings; chunk/unchunk: every size 1-40 x overlap x chunk count 1..8 x tail in {0, max, random} and '
-                '6 multi-sequence cases per (size, overlap)',
+             'length <= 2 (force=True / contiguous-copy decoding on those and every 4th other; DNA also with default arguments), '
+             '5 alphabets with ignore sets of 3-8 characters (one repeated entry): every string of length 1-2 + 40 random, '
+             '150 random strings of length 7-3000 and 32767/32768/65535/65536/70000/100000; rejection: every position of 3 base '
+             'strings per alphabet x 5-7 outside characters (incl. other-case twins of letters and ignored characters), 60 strings of '
+             'length 65-100000 with one outside character first/last/middle/random; '
+             'LITERAL: the empty string, dtype bfloat16, an alphabet containing NUL; reverse_complement: '
+             'default DNA map + random involutive maps on alphabets of size 1-8 + two maps with N as a letter, every string of '
+             'length 0-5 (<= 4 symbols incl. N) or 0-3, 100 random long strings, every 2nd-3rd case also on a tensor with distinct '
+             'entries and / or with allow_N=False; chunk/unchunk: every size 1-40 x every overlap 0..size-1 x one sequence with '
+             '1, 2, 3, 4-9 chunks (random incomplete tail), the longest one-chunk / shortest two-chunk / exact-size sequence and a '
+             'longest-tail 2-3 chunk sequence + one random case of 2-4 sequences, one 4-sequence case with chunk counts {1,2,3,many} '
+             'in a cycled order and tails {random, 0, max}, one case of 2-4 one-chunk sequences in a row; 1-5 rows, lengths given as '
+             'list/numpy/tensor, inputs contiguous/transposed/window/strided, chunks as returned/numpy/contiguous, keyword/positional',
+    'thorough': 'as quick with: 35 ignore-set, 60 re-partition, 40 complement-map and 10 mixed histories; every string of length 1-6 '
+                'when alphabet+ignore has <= 6 symbols, length 1-4 otherwise, two '
+                'alphabets per size, 1500 random long strings, 400 long rejections; reverse_complement every string of length 0-6 '
+                '(<= 5 symbols) or 0-4, 1000 random long strings; chunk/unchunk: every size 1-40 x overlap x chunk count 1..8 x tail '
+                'in {0, max, random}, 6 random and 3 structured multi-sequence cases per (size, overlap)',
 }
 
 DTYPES = [torch.int8, torch.uint8, torch.int16, torch.int32, torch.int64, torch.float16, torch.float32,
@@ -476,13 +513,13 @@ def check_revcomp(case, ctx=None):
             Y0 = Y.clone()
             R = reverse_complement(Y, **kw)
             expY = Y0[sigma][:, list(range(L - 1, -1, -1))]
+            RR = reverse_complement(R, **kw)
+            if tuple(RR.shape) != (A, L) or not torch.equal(RR.to(torch.float64), Y0.to(torch.float64)):
+                out.append('tensor form is not an involution on a tensor with distinct entries: rc(rc(Y)) = %s, Y = %s'
+                           % (RR.tolist() if L <= 8 else tuple(RR.shape), Y0.tolist() if L <= 8 else '...'))
             if tuple(R.shape) != (A, L) or not torch.equal(R.to(torch.float64), expY.to(torch.float64)):
                 out.append('tensor form on a tensor with distinct entries differs from X[sigma(c), L-1-p]: got %s expected %s'
                            % (R.tolist() if L <= 8 else tuple(R.shape), expY.tolist() if L <= 8 else '...'))
-            else:
-                RR = reverse_complement(R, **kw)
-                if not torch.equal(RR.to(torch.float64), Y0.to(torch.float64)):
-                    out.append('tensor form is not an involution on a tensor with distinct entries')
             if not torch.equal(Y, Y0):
                 out.append('reverse_complement modified its input tensor')
         except Exception as e:
@@ -513,6 +550,7 @@ def _run_revcomp(rep, lim):
             alphabet = _rand_alphabet(rng, A, lo=33)
             configs.append((alphabet, _rand_involution(rng, alphabet), False))
     configs.append((['A', 'N', 'C'], ['C', 'N', 'A'], False))      # N is a letter of the alphabet
+    configs.append((['N', 'A', 'C', 'G'], ['A', 'N', 'G', 'C'], False))   # ... and its complement is another letter
     n = 0
     for alphabet, partner, default in configs:
         syms = alphabet + (['N'] if 'N' not in alphabet else [])
@@ -810,7 +848,7 @@ def _ohe_steps(rng, alphabet, ignore, outsiders, k, dna_defaults=False, shared=F
             omit.append('dtype')
         st['omit'] = omit
     steps.append(st)
-    if k % 4 == 3:
+    if st.get('scribble') or k % 4 == 3:
         steps.append(dict(st, scribble=False))           # the identical call again
     for o in outsiders:
         base = _str_with(rng, [], syms, rng.randint(0, 5))
@@ -878,9 +916,10 @@ def _hist_revcomp(rng, dna=False, shared=False, n_steps=10):
               's': _str_with(rng, alphabet, syms, rng.randint(0, 4)), 'dtype': _dn(DTYPES[k % len(DTYPES)]), 'coded': k % 2 == 0}
         if shared and not default:
             st['shared'] = True
+        steps.append(st)
         if k % 3 == 1:
             st['scribble'] = True
-        steps.append(st)
+            steps.append(dict(st, scribble=False))       # the identical call again
     return {'kind': 'history', 'steps': steps}
 
 
